@@ -6,6 +6,7 @@ what surfaced) is checked against it.  Single faults are swept per workload
 (fault_enumeration), multiple faults are sampled (exploration).
 """
 import copy
+import errno
 import logging
 import struct
 
@@ -188,6 +189,15 @@ def _run_session(data, case, faults, src_fault):
     if case.get('no_close'):
         # a source without a close attribute at all
         cls = type('NoClose' + cls.__name__, (cls,), {'close': property()})
+    elif case.get('close_fails'):
+        # a source whose close() fails (a generator-backed source whose
+        # clean-up raises, a socket already reset)
+        def failing_close(self_):
+            self_.closed += 1
+            self_.close_error = OSError(errno.EIO, 'simulated close failure')
+            raise self_.close_error
+        cls = type('CloseFails' + cls.__name__, (cls,),
+                   {'close': failing_close, 'close_error': None})
     src = cls(data, plan, fault=src_fault, kind=case.get('chunk_kind'))
     allowed = case.get('allowed')
     allowed_obj = list(allowed) if allowed is not None else None
@@ -474,8 +484,15 @@ def judge(case, hist, src, w, close_exc, viol):
                  wanted=[len(c) for c in full[:10]],
                  n_offered=len(got), n_wanted=len(full))
             break
-    if close_exc is not None:
+    if close_exc is not None and \
+            close_exc is not getattr(src, 'close_error', None):
+        # (the source's own close() failure may propagate from close())
         viol('close_raised', exc=type(close_exc).__name__)
+    if surf is not None and getattr(src, 'close_error', None) is not None \
+            and surf[1] is src.close_error:
+        # nobody asked the wrapper to close the source in mid-stream, and
+        # its failure must not replace what cut the stream off
+        viol('source_close_error_surfaced_from_read', op=surf[0])
     # how often close() reaches the source is not part of the statement:
     # recorded as a probe by the caller, never a violation
 
@@ -587,6 +604,7 @@ class C06(Check):
                 'chunk_kind': core.weighted(crng, [(None, 6), ('bytearray', 1),
                                                    ('memoryview', 1)]),
                 'no_close': crng.random() < 0.1,
+                'close_fails': crng.random() < 0.1,
                 'final_read': core.weighted(crng, [(None, 8), ('minus1', 1),
                                                    ('none', 1)])
                 if pers == 'file' else None,
@@ -719,7 +737,8 @@ class C06(Check):
                 src_fault, case.get('ask'), bool(case.get('debuglog')),
                 case.get('drain'), bool(case.get('readinto')),
                 bool(case.get('presession')), case.get('chunk_kind'),
-                bool(case.get('no_close')), case.get('final_read'),
+                bool(case.get('no_close')), bool(case.get('close_fails')),
+                case.get('final_read'),
                 bool(case.get('forloop')), bool(case.get('next_after_stop')),
                 case.get('mixed_calls'),
                 len(hist.got), src.reads,
@@ -778,7 +797,7 @@ class C06(Check):
             yield c
         for key in ('presession', 'readinto', 'chunk_kind', 'no_close',
                     'final_read', 'forloop', 'next_after_stop',
-                    'mixed_calls'):
+                    'mixed_calls', 'close_fails'):
             if case.get(key):
                 c = copy.deepcopy(case)
                 c[key] = None
